@@ -28,7 +28,7 @@ func init() {
 			{ID: "C07-R3", Title: "reset for new code covers the run state", Floor: 5, Run: c07r3},
 			{ID: "C07-R4", Title: "frames pushed above the current one are restored by defer (shared with C04-R4)", Floor: 3, Run: c04r4},
 			{ID: "C07-R6", Title: "run-scoped channels are closed once and cleared", Floor: 1, Run: func(c *core.Ctx) { closeOnce(c, "vm") }},
-			{ID: "C07-R7", Title: "run-state reset on entry only, guarded only by request and first-run", Floor: 2, Run: resetDiscipline},
+			{ID: "C07-R7", Title: "run-state reset on entry only, guarded only by request and first-run", Floor: 1, Run: resetDiscipline},
 			{ID: "C07-R8", Title: "every run enters the dispatch loop with an empty operand stack", Floor: 1, Run: runStartsEmpty},
 			{ID: "C07-R9", Title: "the run context is derived from this invocation's context", Floor: 1, Run: runCtxFromArgument},
 			{ID: "C07-R10", Title: "the reset does not read the registers it resets", Floor: 1, Run: resetIndependentOfState},
@@ -47,16 +47,16 @@ func init() {
 			{ID: "C07-R22", Title: "vm.globals is the conversion of what the host supplies now (shared with C08-R6)", Floor: 2, Run: c08r6},
 			{ID: "C07-R23", Title: "emptying the module table keeps the host's modules", Floor: 1, Run: resetKeepsTheHostModules},
 			{ID: "C07-R24", Title: "VM locks are released by defer", Floor: 3, Run: vmLocksAreReleasedByDefer},
-			{ID: "C07-R25", Title: "loaded code entries are fresh", Floor: 2, Run: loadedCodeEntriesAreFresh},
+			{ID: "C07-R25", Title: "loaded code entries are fresh", Floor: 1, Run: loadedCodeEntriesAreFresh},
 			{ID: "C07-R26", Title: "configuration is written by options only", Floor: 1, Run: configurationIsWrittenByOptionsOnly},
-			{ID: "C07-R27", Title: "tables filled while running are forgotten with the code", Floor: 2, Run: tablesFilledWhileRunningAreForgottenWithTheCode},
+			{ID: "C07-R27", Title: "tables filled while running are forgotten with the code", Floor: 1, Run: tablesFilledWhileRunningAreForgottenWithTheCode},
 			{ID: "C07-R28", Title: "shared state is enumerated (shared with C09-R18)", Floor: 1, Run: sharedStateIsEnumerated},
 			{ID: "C07-R29", Title: "reload re-points every function of the reloaded code, whatever its nesting depth (shared with C18-R3)", Floor: 2, Run: c18r3},
 			{ID: "C07-R30", Title: "a refused invocation writes nothing to the VM (shared with C06-R22)", Floor: 8, Run: refusedInvocationsWriteNothing},
 			{ID: "C07-R31", Title: "options that are refused are rolled back", Floor: 3, Run: refusedOptionsAreRolledBack},
 			{ID: "C07-R32", Title: "a host Call leaves the resume point alone", Floor: 1, Run: aHostCallLeavesTheResumePointAlone},
 			{ID: "C07-R33", Title: "frame storage is per activation and re-pointed by its owners only (shared with C02-R17)", Floor: 3, Run: frameStorageIsPerActivation},
-			{ID: "C07-R34", Title: "nesting counters of the VM are taken off in a deferred function (shared with C03-R34)", Floor: 2, Run: nestingCountersAreKeptOnEveryPath},
+			{ID: "C07-R34", Title: "nesting counters of the VM are taken off in a deferred function (shared with C03-R34)", Floor: 1, Run: nestingCountersAreKeptOnEveryPath},
 		},
 	})
 }
